@@ -385,6 +385,9 @@ pub struct World {
     /// spot price of every vAMM at the end of the previous block (harness-side ledger, recorded
     /// whenever the harness starts a new block): the reference of the per-block price band
     pub last_spot: Vec<Option<Uint128>>,
+    /// vAMM addresses registered with the insurance fund according to the harness's own record of
+    /// the owner's successful AddVamm / RemoveVamm calls (not the fund's IsVamm answer)
+    pub registered: std::collections::BTreeSet<String>,
 }
 
 pub fn addr(s: &str) -> Addr {
@@ -566,7 +569,8 @@ impl World {
                 }
             }
         }
-        let mut w = World { app, cfg, d, engine, vamms, ins, feepool, feed, token, step_no: 0, attach: None, last_spot: vec![] };
+        let mut w = World { app, cfg, d, engine, vamms, ins, feepool, feed, token, step_no: 0, attach: None, last_spot: vec![], registered: Default::default() };
+        w.registered = w.vamms.iter().map(|a| a.to_string()).collect();
         let now = w.app.block_info().time.seconds();
         let p = w.cfg.oracle_price;
         let t = w.set_oracle(p, now);
@@ -694,6 +698,17 @@ impl World {
     pub fn ins_exec(&mut self, who: &str, msg: &InsExec) -> Tx {
         let a = self.ins.clone();
         let t = self.exec(who, &a, msg, &[]);
+        if t.ok {
+            match msg {
+                InsExec::AddVamm { vamm } => {
+                    self.registered.insert(vamm.clone());
+                }
+                InsExec::RemoveVamm { vamm } => {
+                    self.registered.remove(vamm);
+                }
+                _ => {}
+            }
+        }
         self.logtx("ins_exec", &t);
         t
     }
